@@ -17,7 +17,7 @@ PLAN = {
     "C01": [("chain_subslot", 70, 2500), ("teams_alts", 30, 1000), ("alap_profile", 20, 800)],
     "C02": [("calendars", 90, 3500), ("dst_weekend", 40, 1500)],
     "C03": [("chain_subslot", 50, 2000), ("teams_alts", 50, 2000), ("alap_profile", 20, 800), ("limits_profile", 40, 1500)],
-    "C04": [("dags", 100, 4000), ("alap_profile", 20, 800), ("container_gate", 15, 600), ("dup_leaf_ids", 15, 600), ("dup_alap", 15, 600)],
+    "C04": [("dags", 100, 4000), ("alap_profile", 40, 1500), ("container_gate", 15, 600), ("dup_leaf_ids", 15, 600), ("dup_alap", 15, 600)],
     "C05": [("limits_profile", 110, 4000)],
     "C06": [("chain_subslot", 60, 2000), ("alap_profile", 40, 1500), ("dags", 20, 800)],
     "C07": [("core_dialect", 110, 5000), ("container_gate", 25, 1000)],
